@@ -127,6 +127,7 @@ func checkC17(c *Ctx, r *Report) {
 		// the selector may hand the work to a generic "largest unit accepted by a filter" helper:
 		// follow the tail call, remembering the filter closures it passes
 		filters := map[*ssa.Parameter]*ssa.Function{}
+		entry := sel // the call through which the selector body under examination is entered
 		for depth := 0; depth < 2; depth++ {
 			var only *ssa.Return
 			nr := 0
@@ -176,7 +177,7 @@ func checkC17(c *Ctx, r *Report) {
 					}
 				}
 			}
-			selFn, filters = g, nf
+			selFn, filters, entry = g, nf, call
 		}
 		// does the filter closure accept exactly on captured % unit == 0 ?
 		isDivFilter := func(cl *ssa.Function) bool {
@@ -273,12 +274,12 @@ func checkC17(c *Ctx, r *Report) {
 							div = true
 						}
 					}
-					if !div && selFn == staticCallee(sel) {
+					if !div && selFn == staticCallee(entry) {
 						// the divisibility test may be switched on by a flag parameter that String() passes as a constant
 						// (b.largestUnit(true)): with the edges that contradict the constant arguments removed, and the
 						// "divisible" edges removed as well, the selection must be unreachable
 						var flt []edgeFilter
-						for ai, a := range callArgs(sel) {
+						for ai, a := range callArgs(entry) {
 							if ai >= len(selFn.Params) {
 								break
 							}
@@ -1142,6 +1143,30 @@ func checkC18(c *Ctx, r *Report) {
 				}
 			})
 			ok = nNil > 0 && allMatch
+		}
+		if !ok && nd.field == "Type" {
+			// the same, path by path (a switch whose case lists the known types shares one `return nil` between the
+			// cases: no single fact holds at it, but every path into it passed an equality with a known type)
+			bs := &boolSummer{li: li}
+			if paths, okS := bs.summarise(f, map[string]string{}, 0); okS && !bs.overflow {
+				nNil, allMatch := 0, true
+				for _, p := range paths {
+					if len(p.vals) == 0 || !isNilConst(p.vals[0]) {
+						continue
+					}
+					nNil++
+					m := false
+					for a, v := range p.cond {
+						if v && strings.Contains(a, "==") && (strings.Contains(a, "."+nd.field+")") || strings.Contains(a, "."+nd.field+".")) {
+							m = true
+						}
+					}
+					if !m {
+						allMatch = false
+					}
+				}
+				ok = nNil > 0 && allMatch
+			}
 		}
 		r.Check(ok, "C18.R2", key, c.Pos(f.Pos()), "refusal present ("+nd.why+")", "verify() accepts a "+nd.field+" the consumers cannot run with ("+nd.why+")")
 	}
